@@ -3,10 +3,14 @@
    Model of  yowsup/config/manager.py, config/v1/{config,serialize}.py, config/base/*.py,
    config/transforms/*.py, common/tools.py (StorageTools).  Definitions only.
 
-   Text = list of code points (N); binary data = list of bytes (N < 256).
+   Text = list of code points (N); binary data = list of bytes (N < 256, `bytes_ok`).
+   base64 itself is modelled in C19B64.v (b64_encode / b64_decode); the pipeline below is
+   written over an arbitrary encoder/decoder pair so that the proofs name exactly which facts
+   about base64 they use (round trip on bytes, output in the key=value value domain); the
+   published theorems and the executable model instantiate it with C19B64.
    A file's content is identified with its decoded text (the locale codec, UTF-8 here, is
    modelled-not-verified).                                                               *)
-From YV Require Import Common.Tac C19.C19Str.
+From YV Require Import Common.Tac C19.C19Str C19.C19B64.
 
 Definition str := C19Str.str.
 Local Open Scope N_scope.
@@ -550,17 +554,19 @@ Definition is_scalar (o : option cval) : bool :=
 Definition is_strfield (o : option cval) : bool :=
   match o with None | Some (CScalar (JStr _)) => true | _ => false end.
 Definition is_bytes (o : option cval) : bool :=
-  match o with None | Some (CBytes _) => true | _ => false end.
+  match o with None => true | Some (CBytes b) => bytes_ok b | _ => false end.
 Definition is_keypair (o : option cval) : bool :=
   match o with
   | None => true
-  | Some (CKeyPair pr pu) => Nat.eqb (length pr) 32%nat && Nat.eqb (length pu) 32%nat
+  | Some (CKeyPair pr pu) =>
+    Nat.eqb (length pr) 32%nat && Nat.eqb (length pu) 32%nat && bytes_ok pr && bytes_ok pu
   | _ => false
   end.
 Definition is_pub (o : option cval) : bool :=
-  match o with None | Some (CPub _) => true | _ => false end.
+  match o with None => true | Some (CPub b) => bytes_ok b | _ => false end.
 
-(* a well-typed configuration: what Config's attributes hold in yowsup *)
+(* a well-typed configuration: what Config's attributes hold in yowsup; binary attributes are
+   byte strings of ANY length (the key pair: 32 + 32 bytes) *)
 Definition wf_config (c : config) : bool :=
   is_strfield (c_phone c) && is_scalar (c_cc c) && is_strfield (c_login c) &&
   is_scalar (c_password c) && is_scalar (c_pushname c) && is_bytes (c_id c) &&
